@@ -10,16 +10,21 @@
 (*   res   one per registration order: the order, the outcome              *)
 (*         (ok / nomatch / ambiguous / other), the selected label, the     *)
 (*         ranks in the WiringResolutionEvent (selected, rejected, tied),  *)
+(*         the labels it lists as rejected,                                *)
 (*         the ResolutionMap and the resolved output type                  *)
 (*   end   the scenario completed                                          *)
 (* Every res event must satisfy the outcome rule of Resolution.tla         *)
 (* (AFail: matching soundness, one type per variable, output = the         *)
 (* substitution, no-match / ambiguity errors, unique minimum rank, and the *)
 (* formula-independent subsumption clause: the selected candidate is not   *)
-(* strictly more general than another matching candidate) with             *)
+(* strictly more general than another matching candidate, and a candidate  *)
+(* that needs a numeric conversion of a scalar value neither wins over nor *)
+(* ties with an otherwise identical one that takes the value exactly) with *)
 (* the ranks THE TREE reported (in-family where the event lists the        *)
 (* candidate, else its solo rank), and all res events of an item must      *)
-(* agree (order independence).  The rank formula is not asserted here.     *)
+(* agree (order independence).  A candidate whose parameters match the     *)
+(* arguments must not be listed as rejected (RejFail).  The rank formula   *)
+(* is not asserted here.                                                   *)
 (***************************************************************************)
 EXTENDS Resolution, Json, IOUtils
 
@@ -48,6 +53,7 @@ OnRes(e) ==
                  out |-> IF e.kind = "ok" THEN e.out ELSE SIG, tied |-> IF e.kind = "ambiguous" THEN Range(e.tied) ELSE {}]
         why  == IF ~S.have THEN "trace.res_before_solo"
                 ELSE IF Range(e.order) # Labels \/ Len(e.order) # Cardinality(Labels) THEN "trace.order_is_not_a_permutation_of_the_family"
+                ELSE IF RejFail(Cands, PArgs, Range(e.rej)) # "" THEN RejFail(Cands, PArgs, Range(e.rej))
                 ELSE AFail(Cands, PArgs, rk, o)
     IN  IF why # "" THEN Fail(why)
         ELSE IF S.n > 0 /\ Canon(o) # S.first THEN Fail("C19.outcome_depends_on_registration_order")
